@@ -9,6 +9,9 @@ import (
 	"errors"
 	"io"
 	real "os"
+	"path/filepath"
+	"strings"
+	"sync"
 	"sync/atomic"
 )
 
@@ -45,7 +48,34 @@ func SetHook(h Hook) {
 		hook.Store(nil)
 		return
 	}
+	aliases.Clear()
 	hook.Store(&box{h})
+}
+
+// aliases maps the randomly named files made by CreateTemp (full path and base name) to a stable
+// name - the pattern without its random part - so that logs, gate labels and violation keys do not
+// depend on the random digits, whatever naming pattern the code under test uses.
+var aliases sync.Map
+
+// Alias returns the stable name of a temporary file created through CreateTemp since the current
+// hook was installed, or p itself.
+func Alias(p string) string {
+	if a, ok := aliases.Load(p); ok {
+		return a.(string)
+	}
+	return p
+}
+
+func registerTemp(name, pattern string) {
+	stable := pattern
+	if i := strings.LastIndex(pattern, "*"); i >= 0 {
+		stable = pattern[:i] + pattern[i+1:]
+	}
+	if stable == "" {
+		stable = "tmp"
+	}
+	aliases.Store(name, filepath.Join(filepath.Dir(name), stable))
+	aliases.Store(filepath.Base(name), stable)
 }
 
 func begin(c *Call) *Call {
@@ -142,6 +172,7 @@ func CreateTemp(dir, pattern string) (*File, error) {
 	f, err := real.CreateTemp(dir, pattern)
 	if c != nil && f != nil {
 		c.Path = f.Name()
+		registerTemp(f.Name(), pattern)
 	}
 	end(c, err)
 	if err != nil {
